@@ -39,9 +39,25 @@ func main() {
 		}
 		out := "# top-level functions of the pinned tree (+ fix commits); see internal/load/norm.go\n"
 		for _, fn := range load.TopLevelSourceFuncs(prog.Prog) {
-			out += fn.String() + "\n"
+			out += fn.String() + "\t" + load.SigKey(fn.Signature) + "\n"
 		}
 		if err := os.WriteFile(*writeBaseline, []byte(out), 0o644); err != nil {
+			fmt.Printf("ERROR %v\n", err)
+			os.Exit(2)
+		}
+		fo := "# struct fields of the pinned tree (+ fix commits); see internal/load/norm.go\n"
+		sf := load.StructFieldsOf(prog.Prog)
+		var ts []string
+		for t := range sf {
+			ts = append(ts, t)
+		}
+		sort.Strings(ts)
+		for _, t := range ts {
+			for _, f := range sf[t] {
+				fo += t + "\t" + f[0] + "\t" + f[1] + "\n"
+			}
+		}
+		if err := os.WriteFile(filepath.Join(filepath.Dir(*writeBaseline), "baseline_fields.txt"), []byte(fo), 0o644); err != nil {
 			fmt.Printf("ERROR %v\n", err)
 			os.Exit(2)
 		}
